@@ -90,22 +90,23 @@ NOT_YET = {}
 EXT = {
  "C01": " Also: a fourth context (tight argument followed by arguments starting with - and [), operands of type any / []any holding numbers, strings and separately built composites of equal and of differing element types.",
  "C02": " Also: programs that use a name whose declaration failed, any-equality across element types, failing operands inside slice bounds.",
- "C04": " Also: every binding site as a source of variables (loop variable over literal / variable / map, parameter, variadic parameter, function result, element of a variable), literals mixing a variable with literals of the same, another or no element type in both orders, concatenations of differently nested empties.",
- "C05": " Two further rules: two parameters with one name; a variable declared in one branch of an if statement used in the next branch; type-mismatch mutants also substitute a variable of type any where the construct needs a concrete type.",
+ "C03": " Also: long error lists (1..1000 erroneous lines of five kinds) in front of every seed and of programs with delicate typing; a malformed number literal must be reported at the literal.",
+ "C04": " Also: every binding site as a source of variables (loop variable over literal / variable / map, parameter, variadic parameter, function result, element of a variable), literals mixing a variable with literals of the same, another or no element type in both orders, concatenations of differently nested empties. Every binding-site case is parsed again behind 70 erroneous lines (no crash, still rejected); literals with a variable two levels down in both orders; loop variables over nested untyped empties.",
+ "C05": " Two further rules: two parameters with one name; a variable declared in one branch of an if statement used in the next branch; type-mismatch mutants also substitute a variable of type any where the construct needs a concrete type. R14: a call without a value in every expression slot and as both operands of every operator.",
  "C06": " Also: every seed with one stray token appended to a line or one punctuation token replaced by another - whatever the parser accepts must survive formatting; comments inside empty literals; own-line comments after blank lines inside literals; word operators without blanks in whitespace-sensitive positions; a 10-level nesting.",
  "C07": " Also: Format applied three times to the same Program object; evy fmt -c over every list of 1..3 files out of {formatted, unformatted} x {.evy, .txtar}; layouts without final newline and with blanks after comments.",
- "C08": " Also: literal typing with several map values, map duplication (repetition, slicing, arguments), every --rand-seed incl. negative ones run repeatedly in fresh processes.",
+ "C08": " Also: literal typing with several map values, map duplication (repetition, slicing, arguments), every --rand-seed incl. negative ones run repeatedly in fresh processes. In-process histories also over programs that read or set err, errmsg and pi.",
  "C09": " Also: repeated concatenation from one base (spare capacity), repetition of wrapped values, err/errmsg inside literals.",
  "C10": " Also: leaving a loop or function while a shadowing declaration is live; a global declared after the nested body and read by a function.",
- "C11": " Also: string element stores reached through containers (static errors); the code-point view of errmsg across conversions (index, slice, range).",
+ "C11": " Also: string element stores reached through containers (static errors); the code-point view of errmsg across conversions (index, slice, range). Index values one rounding step away from 0, +-1 and +-n.",
  "C12": " Also: for every transition the state's literal evaluated a second time afterwards (function called twice); range without a loop variable whose body deletes.",
- "C13": " Also: messages of failed tests (three-argument form is not a format string), non-ASCII map keys in repr, errmsg code points and left-to-right evaluation with err/errmsg as left operand in the err-protocol search.",
- "C14": " Also: for every effect of the uninterrupted run, a run in which the platform raises the flag inside that effect (Sleep/Read/Print...), once with and once without a Yielder installed; calls as the last evaluated operand of every expression form.",
- "C15": " Also: single-handler programs behind three top-level preludes that leave loops and functions early before the globals are declared; a parameter with the name of a global.",
+ "C13": " Also: messages of failed tests (three-argument form is not a format string), non-ASCII map keys in repr, errmsg code points and left-to-right evaluation with err/errmsg as left operand in the err-protocol search. read through the evy binary with input that ends with, without or before a newline.",
+ "C14": " Also: for every effect of the uninterrupted run, a run in which the platform raises the flag inside that effect (Sleep/Read/Print...), once with and once without a Yielder installed; calls as the last evaluated operand of every expression form. Endless loops with a leaf condition and nothing to evaluate in the body.",
+ "C15": " Also: single-handler programs behind three top-level preludes that leave loops and functions early before the globals are declared; a parameter with the name of a global. Handlers whose parameter is declared with a type other than the payload's: rejected, or the handler runs once.",
  "C16": " Hand-written programs the parser rejects are a harness error (globals are read automatically), audited by go test -tags verif ./checks.",
- "C18": " A seventh mode checks a file followed by a formatted file (fmt -c a b); permission bits include group/other write bits under umask 022; fault points missed in the parallel pass are retried one at a time.",
- "C19": " Also: three drawings x seven ways a program can end (normally, exit 0/3, panic, failed test, run-time error, bad argument) x --svg-out to a file and to stdout through the real binary.",
- "C20": " Also: choices whose output differs from the question's only in white space or the final newline; a text and an image question over the same program files verified after seven histories of earlier verifications in one process; seal/unseal of the front matter answer incl. surrounding white space.",
+ "C18": " A seventh mode checks a file followed by a formatted file (fmt -c a b); permission bits include group/other write bits under umask 022; fault points missed in the parallel pass are retried one at a time. Archives without final newline (fmt -c exits 0 iff -w would write the file back byte for byte); after every killed or failed -w the file is edited and formatted again undisturbed in the same directory.",
+ "C19": " Also: three drawings x seven ways a program can end (normally, exit 0/3, panic, failed test, run-time error, bad argument) x --svg-out to a file and to stdout through the real binary. Every line of gridn is compared (position from the origin, every fifth thick); the same command drawn twice in a row leaves the first shape unchanged and styles the second alike.",
+ "C20": " Also: choices whose output differs from the question's only in white space or the final newline; a text and an image question over the same program files verified after seven histories of earlier verifications in one process; seal/unseal of the front matter answer incl. surrounding white space. Questions verified by parse errors (all assignments x all marked subsets incl. a letter without program); front matter histories to length 5 with Verify and edits of the answer.",
 }
 
 def main():
